@@ -41,7 +41,7 @@ import (
 //
 // The peer answers with the id IT READ ON THE WIRE (never with the id the harness asked for).
 // observation: ids=<the id-named attributes on the wire, R = a generated value> out=<reply|lost|none|fail>
-//              h=<the handler saw the reply> probe=<live|dead|stall>
+//              h=<the handler saw the reply> [dup=<a duplicate of the delivered reply reached the handler>] probe=<live|dead|stall>
 
 var keyTo = map[byte]string{'d': "example.org", 'f': "juliet@example.org/Balcony", 'i': "bücher.example"}
 
@@ -434,6 +434,7 @@ func runKey(r *common.Run, k keyCase, class string) {
 	}
 	wid := unqualified(st.Attr, "id")
 	out, h, early := "fail", 0, false
+	lastReply := ""
 	var got res
 	select {
 	case got = <-done:
@@ -450,6 +451,7 @@ func runKey(r *common.Run, k keyCase, class string) {
 		if k.kind == 'R' {
 			reply = fmt.Sprintf(`<message xmlns="%s"%s><received xmlns="urn:xmpp:receipts" id="%s"/></message>`, ns, fa, xmlEsc(wid))
 		}
+		lastReply = reply
 		go rs.Feed([]byte(reply))
 		// the reply reaches the caller or the handler
 		select {
@@ -500,6 +502,31 @@ func runKey(r *common.Run, k keyCase, class string) {
 		r.Fail("own-reply", "request-without-id-on-the-wire", lines, "the request went out without an id")
 	}
 	obs := fmt.Sprintf("ids=%s out=%s h=%d", common.Join(ids, ","), out, h)
+	if out == "reply" && lastReply != "" {
+		// a second call's worth of evidence on the same session: the call has returned and
+		// deregistered, so a DUPLICATE of its reply (same generated id) is a response nobody waits
+		// for: the handler (for receipts: Unhandled) must get it
+		go rs.Feed([]byte(lastReply))
+		dup := 0
+		for dl := time.After(watchdog); dup == 0; {
+			select {
+			case hid := <-handled:
+				if hid == wid {
+					dup = 1
+				}
+			case <-served:
+				dup = -1
+			case <-dl:
+				dup = -1
+			}
+		}
+		if dup != 1 {
+			dup = 0
+			r.Hist["key-lost"]++
+			r.Fail("unmatched-to-handler", "duplicate-of-a-delivered-reply-not-handled", lines, "the call got its reply and returned; the same reply sent again did not reach the handler")
+		}
+		obs += fmt.Sprintf(" dup=%d", dup)
+	}
 	if k.kind == 'R' {
 		go rs.Feed([]byte(`<message xmlns="` + ns + `"><received xmlns="urn:xmpp:receipts" id="sentinel"/></message>`))
 	} else {
